@@ -7,7 +7,7 @@ import convlib as cl
 ID = "C20HDR"
 COQ_PROPS = "Props/C20hdr.v"
 COQ_EXTRA_TARGETS = ["Conv/CorrGeom.vo"]
-THEOREMS = ["C20_hdr_slice_axis", "C20_hdr_freq_phase", "C20_hdr_directions", "C20_hdr_tr", "C20_hdr_slice_times"]
+THEOREMS = ["C20_hdr_slice_axis", "C20_hdr_freq_phase", "C20_hdr_directions", "C20_hdr_tr", "C20_hdr_slice_times", "C20_hdr_rel_times"]
 ALLOWED_AXIOMS = []
 TABLES = ["t_stack", "t_time", "t_conv"]
 TRUSTED_BASE = [
@@ -17,6 +17,5 @@ TRUSTED_BASE = [
 ]
 ASSUMPTIONS = [
     "AcquisitionTime values are DICOM TM strings with finite value; RepetitionTime values are exactly representable in float32 (pixdim)",
-    "AcquisitionTime present in the first sorted file but absent from another one raises KeyError (modelled as EKey; outside the property)",
 ]
 PARTS = [cl.HeaderPart]
